@@ -466,6 +466,35 @@ func c07Exec(c *engine.Ctx, cs c07Case) {
 					return
 				}
 			}
+			// one FeatureCollection variable decoded into twice (a loop over documents): the features
+			// the caller took from the FIRST decode are the caller's - they keep the first document's
+			// values whatever is decoded into the variable afterwards
+			{
+				earlier := `{"type":"FeatureCollection","features":[{"type":"Feature","id":"e0","bbox":[1,2,3,4],"geometry":{"type":"Point","coordinates":[1,2]},"properties":{"n":0}},{"type":"Feature","id":"e1","bbox":[5,6,7,8],"geometry":{"type":"Point","coordinates":[5,6]},"properties":{"n":1}}]}`
+				var used geojson.FeatureCollection
+				var kept []*geojson.Feature
+				var e1, e2 error
+				if p, _ := engine.Guard(func() {
+					e1 = json.Unmarshal([]byte(earlier), &used)
+					kept = append(kept, used.Features...)
+					e2 = json.Unmarshal(data, &used)
+				}); p != nil || e1 != nil || e2 != nil {
+					fail("redecode-error", fmt.Sprintf("%s decoded into a used FeatureCollection: panic %v errors %v / %v", data, p, e1, e2))
+					return
+				}
+				for i, f := range kept {
+					same := false
+					engine.Guard(func() {
+						pt, _ := f.Geometry.(*geom.Point)
+						same = f.ID == fmt.Sprintf("e%d", i) && f.BBox != nil && f.BBox.Min(0) == float64(4*i+1) && pt != nil && pt.X() == float64(4*i+1) && f.Properties["n"] == float64(i)
+					})
+					if !same {
+						fail("kept-feature-changed", fmt.Sprintf("feature %d taken from an earlier decode changed when %s was decoded into the same FeatureCollection variable", i, data))
+						return
+					}
+				}
+				c.Count("collections_decoded_into_used_values", 1)
+			}
 		}
 		c.Count("feature_roundtrips", 1)
 		c.DistinctStr(string(data))
